@@ -78,6 +78,7 @@ class Sim:
         with torch.no_grad():
             self.model.weight.fill_(float(row["epoch"]))
             self.model.bias.fill_(float(row["epoch"]) + 0.5)
+        self.opt.param_groups[0]["vf_epoch"] = row["epoch"]  # tags the optimizer checkpoint with its epoch
         with warnings.catch_warnings():
             warnings.simplefilter("ignore")
             return self.ctl.update_for_epoch(self.model, self.opt, row["trn"] * UNIT, row["val"] * UNIT,
